@@ -111,9 +111,23 @@ type Op struct {
 	// unchanged (0), changed (1: count, 2: role learner) or dropped (3) as Mask says (cyclically), Rules are added,
 	// the group's override is flipped (Flip) and its index moved by Delta; All: the whole configuration is
 	// re-posted with SetAllGroupBundles(override=true), otherwise SetGroupBundle
-	Mask  []int `json:"mask,omitempty"`
-	Flip  bool  `json:"flip,omitempty"`
-	Delta int   `json:"delta,omitempty"`
+	Mask []int `json:"mask,omitempty"`
+	// every op: before the manager of the restart check (and of a restart op) is initialised, the stored records of
+	// the rules selected by Legacy.Mask are MOVED to a non-canonical key under rules/, as an older PD wrote them
+	Legacy Legacy `json:"legacy"`
+	// restart op: 1 = reading the groups fails during the first Initialize, n >= 2: write n-1 of the key repair fails;
+	// Initialize is then retried. DropStores: the restarted PD sees only the first store
+	LoadFault  int  `json:"loadfault,omitempty"`
+	DropStores bool `json:"dropstores,omitempty"`
+	Flip       bool `json:"flip,omitempty"`
+	Delta      int  `json:"delta,omitempty"`
+}
+
+// Legacy selects stored rule records (bit i%10 of Mask for the i-th rule key in sorted order) and the style of
+// the key they are moved to: 0 un-hexed "group-id", 1 a key that sorts before every canonical key, 2 canonical key + ".old"
+type Legacy struct {
+	Mask  int `json:"mask,omitempty"`
+	Style int `json:"style,omitempty"`
 }
 
 type Case struct {
@@ -317,6 +331,13 @@ func genOp(t *rapid.T) Op {
 		}
 		op.Count = rapid.SampledFrom([]int{1, 2, 3, 4, 5, 5, 0}).Draw(t, "newCount")
 		op.Loc = rapid.SampledFrom([][]string{nil, {"zone"}, {"zone", "rack", "host"}}).Draw(t, "newLoc")
+	}
+	if rapid.IntRange(0, 2).Draw(t, "legacy") == 2 {
+		op.Legacy = Legacy{Mask: rapid.IntRange(1, 1023).Draw(t, "legacyMask"), Style: rapid.IntRange(0, 2).Draw(t, "legacyStyle")}
+	}
+	if op.Kind == "restart" {
+		op.LoadFault = rapid.SampledFrom([]int{0, 0, 1, 2, 3}).Draw(t, "loadFault")
+		op.DropStores = rapid.IntRange(0, 4).Draw(t, "dropStores") == 4
 	}
 	if op.Kind != "restart" && rapid.IntRange(0, 7).Draw(t, "abandon") == 7 {
 		op.Abandon = rapid.IntRange(1, 3).Draw(t, "failWrite")
@@ -1113,6 +1134,36 @@ func ruleStoreKey(k [2]string) string {
 }
 func groupStoreKey(id string) string { return "rule_group/" + id }
 
+func legacyKey(k [2]string, style int) string {
+	canon := ruleStoreKey(k)
+	switch style % 3 {
+	case 0:
+		return "rules/" + k[0] + "-" + k[1]
+	case 1:
+		return "rules/" + "00old-" + strings.TrimPrefix(canon, "rules/")
+	}
+	return canon + ".old"
+}
+
+// relocate moves the selected stored rule records to non-canonical keys (raw storage access); content unchanged
+func relocate(b kv.Base, m *model, lg Legacy, style int) int {
+	n := 0
+	for i, k := range m.sortedKeys() {
+		if lg.Mask>>(uint(i)%10)&1 == 0 {
+			continue
+		}
+		canon := ruleStoreKey(k)
+		v, err := b.Load(canon)
+		if err != nil || v == "" {
+			continue
+		}
+		b.Save(legacyKey(k, style), v)
+		b.Remove(canon)
+		n++
+	}
+	return n
+}
+
 // ---------------------------------------------------------------- updates
 
 type update struct {
@@ -1486,8 +1537,12 @@ func runCase(c Case) (vkit.Info, error) {
 		return nil
 	}
 	// a manager started from a copy of the storage observes what is being served; only the keys in doubt are left out
-	restarted := func(want *model, when string) error {
+	restarted := func(want *model, when string, lg Legacy) error {
 		snap := f.snapshot()
+		moved := 0
+		if len(doubt) == 0 {
+			moved = relocate(snap, want, lg, lg.Style)
+		}
 		if len(doubt) > 0 {
 			// a half-written update may have removed every stored rule: Initialize then takes the storage
 			// for one of a cluster that never enabled placement rules and creates the default rule,
@@ -1508,7 +1563,21 @@ func runCase(c Case) (vkit.Info, error) {
 				return fmt.Errorf("%s: a restarted manager fails to initialise from the storage: %v", when, err)
 			}
 			if err := diffViews(realView(m2), want.view()); err != nil {
-				return fmt.Errorf("%s: a manager restarted from the storage differs from what is served: %v", when, err)
+				return fmt.Errorf("%s: a manager restarted from the storage (%d rule records under legacy keys) differs from what is served: %v", when, moved, err)
+			}
+			if moved > 0 {
+				// the relocation is invisible, repaired once and for all
+				info.Class("legacy-keys-loaded")
+				m3, err := f.newManager(snap)
+				if err != nil {
+					return fmt.Errorf("%s: a second manager over the storage repaired by the first load fails: %v", when, err)
+				}
+				if err := diffViews(realView(m3), want.view()); err != nil {
+					return fmt.Errorf("%s: a second manager started after %d legacy keys were repaired differs from what is served: %v", when, moved, err)
+				}
+				if err := diffKeys(storedKeysOf(snap), want.expectedKeys()); err != nil {
+					return fmt.Errorf("%s: after loading %d rule records from legacy keys: %v", when, moved, err)
+				}
 			}
 			return nil
 		}
@@ -1564,19 +1633,67 @@ func runCase(c Case) (vkit.Info, error) {
 			if len(doubt) > 0 {
 				// the storage holds a half-written update (documented residual): keep serving, check the rest
 				info.Class("restart-skipped-in-doubt")
-				if err := restarted(m, fmt.Sprintf("op %d (restart)", i)); err != nil {
+				if err := restarted(m, fmt.Sprintf("op %d (restart)", i), Legacy{}); err != nil {
 					return info, err
 				}
 				continue
 			}
 			before := faultkv.Dump(f.base)
-			if f.mgr, err = f.newManager(f.fkv); err != nil {
-				return info, fmt.Errorf("op %d: restart on the same storage failed: %v", i, err)
+			style := op.Legacy.Style
+			if op.LoadFault >= 2 && style%3 == 1 && op.Legacy.Mask != 0 && vkit.Known(kDupKeys) {
+				// an interrupted repair leaves a legacy key that sorts before the canonical one next to it
+				info.Exclude(kDupKeys)
+				style = 2
 			}
-			// nothing is in doubt: the storage holds exactly what is served and a load has nothing to repair
+			moved := relocate(f.base, m, op.Legacy, style)
+			if op.DropStores && f.c.Stores == "zones" {
+				if vkit.Known(kStoreCheck) {
+					info.Exclude(kStoreCheck)
+				} else {
+					f.informer = &storeSet{stores: f.informer.GetStores()[:1]}
+					m = m.clone()
+					m.stores = zoneStores[:1]
+					info.Class("restart-with-fewer-stores")
+				}
+			}
+			what := fmt.Sprintf("op %d (restart, %d rule records under legacy keys, load fault %d)", i, moved, op.LoadFault)
+			mgr := placement.NewRuleManager(core.NewStorage(f.fkv), f.informer)
+			switch {
+			case op.LoadFault == 1:
+				f.fkv.SetGate(func(kind, key string) error {
+					if kind == "range" && strings.HasPrefix(key, "rule_group") {
+						return faultkv.ErrInjected
+					}
+					return nil
+				})
+			case op.LoadFault >= 2:
+				f.fkv.FailNth(op.LoadFault - 1)
+			}
+			err := mgr.Initialize(f.c.MaxReplica, append([]string(nil), f.c.Loc...))
+			f.fkv.SetGate(nil)
+			f.fkv.ResetCounters()
+			if err != nil && op.LoadFault != 0 {
+				if !isInjected(err) {
+					return info, fmt.Errorf("%s: Initialize failed with %v", what, err)
+				}
+				// the failed start is retried
+				info.Class("restart-retried-after-load-fault")
+				if vkit.Known(kReinit) {
+					info.Exclude(kReinit)
+					mgr = placement.NewRuleManager(core.NewStorage(f.fkv), f.informer)
+				}
+				err = mgr.Initialize(f.c.MaxReplica, append([]string(nil), f.c.Loc...))
+				what += ", Initialize retried after the injected failure"
+			}
+			if err != nil {
+				return info, fmt.Errorf("%s: restart on the same storage failed: %v", what, err)
+			}
+			f.mgr = mgr
+			// nothing is in doubt: afterwards the storage holds exactly what is served, every rule under its canonical key
 			if after := faultkv.Dump(f.base); !reflect.DeepEqual(before, after) {
-				return info, fmt.Errorf("op %d (restart): loading changed the storage: before %v, after %v", i, before, after)
+				return info, fmt.Errorf("%s: loading changed the storage: before %v, after %v", what, before, after)
 			}
+			info.ClassIf(moved > 0, "restart-with-legacy-keys")
 			f.fkv.TakeLog()
 			f.fkv.ResetCounters()
 			if err := served(m, fmt.Sprintf("after op %d (restart)", i)); err != nil {
@@ -1628,7 +1745,7 @@ func runCase(c Case) (vkit.Info, error) {
 			if err := served(m, when+" was rejected ("+err.Error()+") but changed what is observable"); err != nil {
 				return info, err
 			}
-			if err := restarted(m, when+" (rejected)"); err != nil {
+			if err := restarted(m, when+" (rejected)", op.Legacy); err != nil {
 				return info, err
 			}
 			stats.rejected++
@@ -1659,7 +1776,7 @@ func runCase(c Case) (vkit.Info, error) {
 				if err := served(m, fmt.Sprintf("%s failed at storage write %d and changed what is observable", when, op.Abandon)); err != nil {
 					return info, err
 				}
-				if err := restarted(m, when+" (failed, not retried)"); err != nil {
+				if err := restarted(m, when+" (failed, not retried)", op.Legacy); err != nil {
 					return info, err
 				}
 				continue
@@ -1702,7 +1819,7 @@ func runCase(c Case) (vkit.Info, error) {
 		if err := served(m, "after "+when); err != nil {
 			return info, err
 		}
-		if err := restarted(m, "after "+when); err != nil {
+		if err := restarted(m, "after "+when, op.Legacy); err != nil {
 			return info, err
 		}
 	}
